@@ -312,6 +312,90 @@ def part_encode_imports(chk, fns, decls):
     if r == 'sat':
         chk.finding('encode-imports-binding', 'encode_imports binds an implicit argument or an explicit import node to the wrong emitted import, or emits an import twice / not at all (rule-level counterexample over the MIR)', {'rule': 'encode_imports'})
 
+# ---------------------------------------------------------------------------- D. CompositionGraphEncoder::import (one import emission)
+
+def part_import_emission(chk, fns, decls):
+    """`import(state, name, types, kind)`: an interface already imported in this scope is reused; otherwise exactly one import of the item's own kind
+    under the given name is emitted, and types / identified instances are recorded for later reuse"""
+    wt = chk.decls('wac-types'); kinds = [v[0] for v in wt.enums['ItemKind']]
+    name = Lazy('name', '&str'); kind = Lazy('kind', 'ItemKind'); types = Lazy('types', 'Types')
+    known_iid = Lazy('known.interface_id', 'std::string::String'); known_idx = BitVec('known.instance_index', 32)
+    io = [x for x, t in wt.structs['Interface'][1]]
+    def m_builder(ctx): return ctx.ret(Ref(Lazy('builder', 'ComponentBuilder'), ()))
+    def m_import(ctx): ctx.event('import', to_atom(ctx.eng, ctx.deref(ctx.args[1])).t, ctx.args[2]); return ctx.ret(BitVecVal(1000, 32))
+    def m_enc_new(ctx): return ctx.ret(Opaque('type-encoder'))
+    def m_enc_ty(ctx): ctx.event('encode_type', ctx.deref(ctx.args[2])); return ctx.ret(BitVecVal(500, 32))
+    def m_enc_res(ctx): ctx.event('import_resource', to_atom(ctx.eng, ctx.deref(ctx.args[2])).t, ctx.deref(ctx.args[3])); return ctx.ret(BitVecVal(700, 32))
+    def m_iface(ctx):
+        idv = ctx.deref(ctx.args[1]); return ctx.ret(Ref(Lazy(f'iface[{idv.name}]', 'Interface'), ()))
+    def m_kind_ty(ctx):
+        k = ctx.deref(ctx.args[0]); return ctx.ret(k.kid('!ty', 'wac_types::Type'))
+    def m_desc(ctx): return ctx.ret(Opaque('desc'))
+    ov = [(r'^(?:encoding::)?State::builder$', m_builder), (r'ComponentBuilder::import$', m_import), (r'^(?:encoding::)?TypeEncoder::<.*>::new$', m_enc_new), (r'^(?:encoding::)?TypeEncoder::<.*>::ty$', m_enc_ty),
+          (r'^(?:encoding::)?TypeEncoder::<.*>::import_resource$', m_enc_res), (r'^<wac_types::Types as Index<(?:wac_types::)?InterfaceId>>::index$', m_iface),
+          (r'^(?:wac_types::)?ItemKind::ty$', m_kind_ty), (r'^(?:wac_types::)?ItemKind::desc$', m_desc)]
+    eng = chk.engine(fns, decls, overrides=ov, loop_bound=4); eng.atom_strings = True
+    def eq_hook(a, b):
+        t = (a.ty or b.ty or '')
+        if 'Type' in t or t.endswith('Id') or t == '': return lazy_atom(a).t == lazy_atom(b).t
+        return None
+    eng.eq_hook = eq_hook
+    fname = encoder_fn(eng, 'import')
+    so = [x for x, t in decls.structs['Scope'][1]]; sto = [x for x, t in decls.structs['State'][1]]
+    scope = [Opaque('scope-field')] * len(so)
+    scope[so.index('type_indexes')] = MapV(()); scope[so.index('instances')] = MapV(((known_iid, known_idx),))
+    sf = [Opaque('state-field')] * len(sto); sf[sto.index('current')] = Agg(scope, 'Scope'); sf[sto.index('scopes')] = VecV(())
+    st = engine.State(); scell = st.alloc(Agg(sf, 'State'))
+    fn = eng.fns[fname]; fr = engine.Frame(fn)
+    for (loc, ty), a in zip(fn.params, [Ref(st.alloc(Agg((Opaque('graph'),), 'CompositionGraphEncoder'))), Ref(scell), name, Ref(types, ()), kind]): fr.env[loc] = st.alloc(a)
+    eng.assume(ULT(kind.disc, bv64(len(kinds))))
+    tkey = wt.find_enum(['component', 'Type'], 'Resource')[0]; tvars = [v[0] for v in wt.enums[tkey]]
+    eng.assume(ULT(kind.kid('Type.0').disc, bv64(len(tvars))))
+    st.frames = [fr]; eng.run(st); outs = eng.out; chk.account(eng, [fname])
+    base = list(eng.assumptions)
+    KI = {k: bv64(i) for i, k in enumerate(kinds)}
+    iface = Lazy(f'iface[{kind.kid("Instance.0").name}]', 'Interface'); iid_opt = iface.kid(str(io.index('id'))); iid = iid_opt.kid('Some.0')
+    is_inst = kind.disc == KI['Instance']; has_id = iid_opt.disc == bv64(1)
+    reuse = And(is_inst, has_id, lazy_atom(iid).t == lazy_atom(known_iid).t)
+    is_res = And(kind.disc == KI['Type'], kind.kid('Type.0').disc == bv64(tvars.index('Resource')))
+    REF_OF = {'Type': 'Type', 'Func': 'Func', 'Instance': 'Instance', 'Component': 'Component', 'Module': 'Module', 'Value': 'Value'}
+    bads = []; DBG = []
+    for o in outs:
+        if o.kind == 'bound': continue
+        if o.kind != 'ret':
+            if os.environ.get('C03_DEBUG'): print('  non-ret', o.kind, o.site, o.value)
+            bads.append(o.cond()); continue
+        tr = o.st.trace; imp = [t for t in tr if t[0] == 'import']; res = [t for t in tr if t[0] == 'import_resource']; enc = [t for t in tr if t[0] == 'encode_type']
+        post = o.st.heap[scell].f[sto.index('current')]
+        pinst = post.f[so.index('instances')].entries; ptypes = post.f[so.index('type_indexes')].entries
+        rv = eng.term(o.value, 'u32')
+        if not imp and not res:
+            cs = [reuse, rv == known_idx, BoolVal(not enc and len(pinst) == 1 and not ptypes)]
+        elif res:
+            cs = [Not(reuse), is_res, BoolVal(len(res) == 1 and not imp), res[0][1] == lazy_atom(name).t, rv == BitVecVal(700, 32)]
+        else:
+            cs = [Not(reuse), Not(is_res), BoolVal(len(imp) == 1 and len(enc) == 1), imp[0][1] == lazy_atom(name).t, rv == BitVecVal(1000, 32)]
+            ref = imp[0][2]; ref = eng.deref(o.st, ref) if isinstance(ref, Ref) else ref
+            rvar = list(ref.vars)[0] if isinstance(ref, Enum) and ref.vars else (ref.ty.split('::')[-1] if isinstance(ref, Agg) and ref.ty else None)
+            cs.append(Or([And(kind.disc == KI[k], BoolVal(rvar == v)) for k, v in REF_OF.items()]))
+            # bookkeeping for later reuse
+            cs.append(If(kind.disc == KI['Type'], BoolVal(len(ptypes) == 1), BoolVal(len(ptypes) == 0)))
+            cs.append(If(And(is_inst, has_id), BoolVal(len(pinst) == 2), BoolVal(len(pinst) == 1)))
+            if len(pinst) == 2: cs.append(And(to_atom(eng, eng.deref(o.st, pinst[1][0])).t == lazy_atom(iid).t, eng.term(pinst[1][1], 'u32') == BitVecVal(1000, 32)))
+            if len(ptypes) == 1: cs.append(eng.term(ptypes[0][1], 'u32') == BitVecVal(1000, 32))
+        bads.append(And(o.cond(), Not(And(cs)))); DBG.append((o, cs))
+    r, m = chk.obligation('CompositionGraphEncoder::import: an interface already imported in the scope is reused (no second import); otherwise one import of the item\'s own kind under the given name, recorded for reuse',
+                          base + [Or(bads + [BoolVal(False)])], base=base)
+    if r == 'sat' and os.environ.get('C03_DEBUG'):
+        for o, cs in DBG:
+            if ev_bool(m, And(o.cond(), Not(And(cs)))):
+                print('  trace', [t[:3] for t in o.st.trace], 'value', o.value, 'kind', m.eval(kind.disc))
+                for i, x in enumerate(cs):
+                    if not ev_bool(m, x): print('  failing clause', i, str(z3.simplify(x))[:200])
+                break
+    if r == 'sat':
+        chk.finding('import-emission', 'CompositionGraphEncoder::import emits a second import for an interface that is already imported, an import of the wrong kind / name, or does not record it for reuse (rule-level counterexample over the MIR)', {'rule': 'import'})
+
 def body(chk):
     chk.assumptions += ['graph states satisfy the representation invariant of C06 (plus its stated realisability restrictions); world import lists are duplicate-free and bounded',
                         'TypeAggregator::aggregate / canonical_import_name / imports by contract (C09): aggregate succeeds or fails arbitrarily per call, the canonical name of a required name is an aggregated import',
@@ -319,7 +403,7 @@ def body(chk):
     fns = chk.load('wac-graph'); decls = chk.decls('wac-graph')
     c06.IK_INSTANCE = decls.enum_index('ItemKind', 'Instance')
     parts = [(f'resolve_imports[{n}]', part_resolve_imports, (fns, decls, n)) for n in (0, 1, 2)]
-    parts += [('imports()', part_listing, (fns, decls)), ('encode_imports', part_encode_imports, (fns, decls))]
+    parts += [('imports()', part_listing, (fns, decls)), ('encode_imports', part_encode_imports, (fns, decls)), ('import emission', part_import_emission, (fns, decls))]
     chk.parallel(parts)
 
 if __name__ == '__main__':
